@@ -122,7 +122,8 @@ import sys
 sys.path.insert(0, %(repo)r)
 from typing import List
 from matchingproblems.generator.generator_shared import create_string_pref
-from matchingproblems.solver.fileIO import _get_simple_pref_list_and_ranks
+from matchingproblems.solver import fileIO as _fio
+_get_simple_pref_list_and_ranks = getattr(_fio, %(reader)r)
 
 ENTS = %(ents)r
 
@@ -153,7 +154,7 @@ def crosshair_task(task, res):
     import sys as _sys
     n = task['n']
     names = ['t%d' % i for i in range(n)]
-    src = CH_TEMPLATE % {'repo': repo.REPO, 'ents': entries(n), 'params': ', '.join('%s: bool' % x for x in names), 'names': ', '.join(names)}
+    src = CH_TEMPLATE % {'repo': repo.REPO, 'reader': find_reader(repo.load('real')).__name__, 'ents': entries(n), 'params': ', '.join('%s: bool' % x for x in names), 'names': ', '.join(names)}
     d = tempfile.mkdtemp(prefix='vf_c13ch_')
     try:
         path = os.path.join(d, 'h13.py')
@@ -185,6 +186,28 @@ def crosshair_task(task, res):
     return res
 
 
+_reader_cache = {}
+
+
+def find_reader(ns):
+    """the reader's tie-aware tokeniser: a private helper of fileIO that may be renamed, so it is located by what it
+    does (one list of tokens -> (entries, dense ranks)) rather than by name; None if no such function exists"""
+    if 'f' not in _reader_cache:
+        import inspect
+        found = getattr(ns.fileIO, '_get_simple_pref_list_and_ranks', None)
+        if found is None:
+            for name, fn in vars(ns.fileIO).items():
+                if inspect.isfunction(fn) and fn.__module__ == ns.fileIO.__name__:
+                    try:
+                        if len(inspect.signature(fn).parameters) == 1 and fn(['(7', '5)', '9']) == ([7, 5, 9], [1, 1, 2]):
+                            found = fn
+                            break
+                    except Exception:  # noqa
+                        continue
+        _reader_cache['f'] = found
+    return _reader_cache['f']
+
+
 def roundtrip(ns, n, level, ties, np_entries=False):
     """the code under test: writer -> (file) -> reader; ties symbolic or concrete"""
     ents = entries(n)
@@ -192,7 +215,7 @@ def roundtrip(ns, n, level, ties, np_entries=False):
         import numpy as _np
         toks = ns.gshared.create_string_pref(_np.array(ents) if np_entries else list(ents), ties)
         toks = [str(t) for t in toks]
-        simp, ranks = ns.fileIO._get_simple_pref_list_and_ranks(list(toks))
+        simp, ranks = find_reader(ns)(list(toks))
         return {'tokens': toks, 'lists': [(simp, ranks)]}
     d = tempfile.mkdtemp(prefix='vf_c13_')
     try:
@@ -222,7 +245,7 @@ def roundtrip(ns, n, level, ties, np_entries=False):
             f.write(text)
         opts = {ns.enums.Instance_options.NUMAGENTS: na, ns.enums.Instance_options.TWOPL: True,
                 ns.enums.Instance_options.PC: False}
-        model = ns.fileIO._import_from_file(path, opts)
+        model = ns.fileIO.import_model(path, opts)
     finally:
         shutil.rmtree(d, ignore_errors=True)
     row = model.pairs[0]
@@ -241,6 +264,11 @@ def roundtrip(ns, n, level, ties, np_entries=False):
 
 def run_task(task):
     n, level = task['n'], task['level']
+    if level in ('func', 'crosshair') and find_reader(repo.load('real')) is None:
+        # the function-level round trip needs the tokeniser as a separate function; without it the file-level tasks
+        # (public import path) carry the property
+        return {'obligations': 0, 'discharged': 0, 'unknown': 0, 'cex': [], 'queries': 0, 'solver_time': 0.0, 'paths': 0,
+                'nontrivial': 0, 'controls': {'func_level_skipped_no_tokeniser_function': 1}, 'sample': dict(task)}
     if level == 'crosshair':
         return crosshair_task(task, {'obligations': 0, 'discharged': 0, 'unknown': 0, 'cex': [], 'queries': 0, 'solver_time': 0.0,
                                      'paths': 0, 'nontrivial': 0, 'controls': {}})
